@@ -566,8 +566,8 @@ func genOp(t *rapid.T) trackOp {
 		op.Codec = "none" // no Set*Descriptor exists for timed metadata / closed caption tracks: the stsd stays empty
 	}
 	op.Sample = sampleSpec{Data: rapid.SliceOfN(rapid.Byte(), 1, 12).Draw(t, "sampleData"), Dur: rapid.OneOf(rapid.Uint32Range(0, 5000), rapid.Uint32()).Draw(t, "dur"),
-		Flags: rapid.OneOf(rapid.SampledFrom([]uint32{0, 0x02000000, 0x01010000}), rapid.Uint32()).Draw(t, "flags"),
-		Cto:   rapid.OneOf(rapid.Int32Range(-5000, 5000), rapid.Int32()).Draw(t, "cto"),
+		Flags:      rapid.OneOf(rapid.SampledFrom([]uint32{0, 0x02000000, 0x01010000}), rapid.Uint32()).Draw(t, "flags"),
+		Cto:        rapid.OneOf(rapid.Int32Range(-5000, 5000), rapid.Int32()).Draw(t, "cto"),
 		DecodeTime: rapid.OneOf(rapid.Uint64Range(0, 1<<20), rapid.SampledFrom([]uint64{0, 1<<32 - 1, 1 << 32, 1<<63 - 1}), rapid.Uint64Range(0, 1<<62)).Draw(t, "decodeTime")}
 	return op
 }
